@@ -115,6 +115,8 @@ type cg struct {
 	fresh    bool
 	inLambda int
 	usesLatch bool
+	outlining bool
+	helpers  []string          // outlined switch functions of the current function (emitted before it)
 	alias    map[string]string // inside a single-field update block: reads of that field refer to the running value
 	reads    []string // register fields read so far in the current statement (outside lambdas they are read before later calls)
 }
@@ -791,6 +793,153 @@ func (g *cg) escapes(st ast.Stmt) bool {
 	return esc
 }
 
+// outlineSwitch: a `switch` over an addressing mode that assigns variables of the enclosing function (and does not return) becomes a
+// function of its own, `<fn>_switch<k>`, taking the current values of the locals it mentions and returning the locals it assigns that
+// are used afterwards; the call site assigns them back.  Same computation, but the statements after the switch are not copied into
+// its 27 arms by the `do` elaborator, and the tie can be proved arm by arm on a small term.
+func (g *cg) outlineSwitch(x *ast.SwitchStmt, ind string) bool {
+	if g.outlining || x.Init != nil || x.Tag == nil || !g.escapes(x) {
+		return false
+	}
+	hasReturn := false
+	ast.Inspect(x, func(n ast.Node) bool {
+		if _, ok := n.(*ast.ReturnStmt); ok {
+			hasReturn = true
+		}
+		return !hasReturn
+	})
+	if hasReturn {
+		return false
+	}
+	// is the tag a mode?
+	if id, ok := x.Tag.(*ast.Ident); ok {
+		if g.kinds[g.p.info.Uses[id]] != kMode {
+			return false
+		}
+	} else if f, ok := g.cpuField(x.Tag); !ok || f != "Mode" {
+		return false
+	}
+	inner := map[types.Object]bool{}
+	ast.Inspect(x, func(n ast.Node) bool {
+		switch a := n.(type) {
+		case *ast.AssignStmt:
+			if a.Tok == token.DEFINE {
+				for _, l := range a.Lhs {
+					if id, ok := l.(*ast.Ident); ok {
+						inner[g.p.info.Defs[id]] = true
+					}
+				}
+			}
+		case *ast.ValueSpec:
+			for _, id := range a.Names {
+				inner[g.p.info.Defs[id]] = true
+			}
+		}
+		return true
+	})
+	used, assigned := map[types.Object]bool{}, map[types.Object]bool{}
+	ast.Inspect(x, func(n ast.Node) bool {
+		switch a := n.(type) {
+		case *ast.Ident:
+			if o := g.p.info.Uses[a]; o != nil && !inner[o] {
+				if _, ok := g.kinds[o]; ok {
+					used[o] = true
+				}
+			}
+		case *ast.AssignStmt:
+			if a.Tok != token.DEFINE {
+				for _, l := range a.Lhs {
+					if id, ok := l.(*ast.Ident); ok && !inner[g.p.info.Uses[id]] {
+						assigned[g.p.info.Uses[id]] = true
+					}
+				}
+			}
+		case *ast.IncDecStmt:
+			if id, ok := a.X.(*ast.Ident); ok && !inner[g.p.info.Uses[id]] {
+				assigned[g.p.info.Uses[id]] = true
+			}
+		}
+		return true
+	})
+	after := map[types.Object]bool{}
+	ast.Inspect(g.cur.fd.Body, func(n ast.Node) bool {
+		if id, ok := n.(*ast.Ident); ok && id.Pos() > x.End() {
+			if o := g.p.info.Uses[id]; o != nil {
+				after[o] = true
+			}
+		}
+		return true
+	})
+	byPos := func(m map[types.Object]bool, also map[types.Object]bool) []types.Object {
+		var os []types.Object
+		for o := range m {
+			os = append(os, o)
+		}
+		for o := range also {
+			if !m[o] {
+				os = append(os, o)
+			}
+		}
+		sort.Slice(os, func(i, j int) bool { return os[i].Pos() < os[j].Pos() })
+		return os
+	}
+	params := byPos(used, assigned)
+	var results []types.Object
+	for _, o := range byPos(assigned, nil) {
+		if after[o] {
+			results = append(results, o)
+		}
+	}
+	if len(results) == 0 || len(results) > 4 {
+		return false
+	}
+	name := fmt.Sprintf("%s_switch%d", g.cur.name, len(g.helpers)+1)
+	// --- the helper
+	savedLines, savedFresh, savedTmp := g.lines, g.fresh, g.tmp
+	g.lines, g.fresh, g.outlining = nil, false, true
+	var ps, args []string
+	for _, o := range params {
+		n := g.localName(o)
+		ps = append(ps, fmt.Sprintf("(%s : %s)", n, g.kinds[o].lean()))
+		args = append(args, n)
+		g.emit("  ", "let mut %s := %s", n, n)
+	}
+	g.stmt(x, "  ")
+	var rs, rts []string
+	for _, o := range results {
+		rs = append(rs, g.localName(o))
+		rts = append(rts, g.kinds[o].lean())
+	}
+	if len(rs) == 1 {
+		g.emit("  ", "return %s", rs[0])
+	} else {
+		g.emit("  ", "return (%s)", strings.Join(rs, ", "))
+	}
+	src := g.l.fset.Position(x.Pos())
+	text := fmt.Sprintf("/-- generated from %s:%d: the `switch` of `%s`, outlined (inputs: the locals it mentions; result: %s) -/\ndef %s %s : Ex (%s) := do\n%s\n",
+		strings.TrimPrefix(src.Filename, *repo+"/"), src.Line, g.cur.fd.Name.Name, strings.Join(rs, ", "), name, strings.Join(ps, " "), strings.Join(rts, " × "), strings.Join(g.lines, "\n"))
+	g.helpers = append(g.helpers, text)
+	g.lines, g.fresh, g.outlining = savedLines, savedFresh, false
+	_ = savedTmp
+	// --- the call
+	g.emit(ind, "let r_ ← %s.%s %s", g.ns(), name, strings.Join(args, " "))
+	for i, o := range results {
+		proj := "r_"
+		if len(results) > 1 {
+			proj = "r_"
+			for j := 0; j < i; j++ {
+				proj += ".2"
+			}
+			if i < len(results)-1 {
+				proj += ".1"
+			}
+		}
+		g.emit(ind, "%s := %s", g.localName(o), proj)
+	}
+	g.fresh = false
+	return true
+}
+
 func mentions(n ast.Node, names ...string) bool {
 	found := false
 	ast.Inspect(n, func(m ast.Node) bool {
@@ -1024,6 +1173,9 @@ func (g *cg) stmt(s ast.Stmt, ind string) {
 	case *ast.SwitchStmt:
 		if x.Init != nil || x.Tag == nil {
 			g.die(s, "unsupported switch form")
+		}
+		if g.outlineSwitch(x, ind) {
+			return
 		}
 		tag, k := g.expr(x.Tag, kNone, ind)
 		fr := g.fresh
@@ -1664,6 +1816,7 @@ func (g *cg) translate(fn *cgFunc) {
 	g.used = map[string]bool{}
 	g.lines = nil
 	g.tmp = 0
+	g.helpers = nil
 	g.tmpK = map[string]kind{}
 	g.fresh = false
 	g.usesLatch = false
@@ -1779,7 +1932,12 @@ func (g *cg) translate(fn *cgFunc) {
 	if fd.Name.Name == "Step" {
 		params = append([]string{"(sem : U8 → RowSem) (adj : U8 → CycAdj)"}, params...)
 	}
-	fn.text = fmt.Sprintf("%s\ndef %s %s : Ex (%s) := do\n%s\n", hdr, fn.name, strings.Join(params, " "), res, strings.Join(g.lines, "\n"))
+	fn.text = strings.Join(g.helpers, "\n") + func() string {
+		if len(g.helpers) > 0 {
+			return "\n"
+		}
+		return ""
+	}() + fmt.Sprintf("%s\ndef %s %s : Ex (%s) := do\n%s\n", hdr, fn.name, strings.Join(params, " "), res, strings.Join(g.lines, "\n"))
 }
 
 func genCpuGo(l *loader) {
